@@ -26,6 +26,9 @@ func init() {
 }
 
 func runC16(c *Ctx) {
+	if !importing {
+		importObls(c, "C10", runC10, "X10", func(k string) bool { return containsAny(k, "transports/meeklite") })
+	}
 	p := c.P
 	iow := p.Func("transports/meeklite:(*meekConn).ioWorker")
 	rt := p.Func("transports/meeklite:(*meekConn).roundTrip")
